@@ -24,6 +24,24 @@ def run(ctx):
             for b in [x for x in r.get("evmon", []) if "LUSUP" in x][:2]:
                 ctx.violation("lusup-slot-overrun", "L supernode outgrew its reserved slot: " + b, S.replay_blob(r))
     S.judge(ctx, recs, ["wfL", "wfU", "permr", "permc", "lu"], "asan-run")
+    # dynamic L-supernode storage scheme (environment variable SuperLU_DYNAMIC_SNODE_STORE): storage for an H-supernode is claimed when its
+    # leading column is reached, from a symbolic count made at that moment.  One thread: same requirements as the static scheme.
+    dyn1 = S.sweep(ctx, 200 if q else 2500, 40 if q else 120, precs="dszc", drivers=("gssv", "gssvx"), flavour="asan",
+                   force={"dyn": 1, "nprocs": 1, "kind": kinds + ["blockdiag", "tridiag"]}, seed_offset=560)
+    S.judge(ctx, dyn1, ["wfL", "wfU", "permr", "permc", "lu"], "dynamic-snode-run")
+    # several threads: a genuine defect of the unchanged library (DESIGN 12.3 F11): every failure of this population is reported under ONE key,
+    # identified by the mode (dynamic scheme, nprocs >= 2); the same failure in any other population keeps its own key.
+    dynp = []
+    for i, P in enumerate((2, 4)):
+        dynp += S.sweep(ctx, 100 if q else 1200, 40 if q else 100, precs="dszc", drivers=("gssv", "gssvx"), flavour="asan",
+                        force={"dyn": 1, "nprocs": P, "perturb": 2, "kind": kinds}, seed_offset=570 + i)
+    class _Sub:
+        def __init__(self): self.v = []; self.coverage = {}
+        def violation(self, key, what, blob, no_input=False): self.v.append((key, what, blob))
+    sub = _Sub(); S.judge(sub, dynp, ["wfL", "wfU", "permr", "permc", "lu"], "dynamic-snode-threads")
+    for key, what, blob in sub.v[:3]:
+        ctx.violation("dynamic-snode-store:nprocs>=2", what, blob)
+    ctx.coverage["dynamic_snode_runs"] = {"one_thread": len(dyn1), "threads": len(dynp), "threads_failing": len(sub.v)}
     # tiny estimates: must stop with the diagnostic (exit through the abort path), never by a signal / sanitizer report
     tiny = []
     for i, fill in enumerate([(-50, 1, -30), (-50, -50, 1), (-50, 2, 2)]):
